@@ -1,10 +1,10 @@
-(* CorePhase2AcctKpoll.v -- the kernel-timer invariant through iv_fd_poll_and_run. *)
+(* CorePhase2K1Poll.v -- the kernel-timer invariant through iv_fd_poll_and_run. *)
 From Coq Require Import List ZArith Bool Lia.
 From Ivv Require Import Core.Kernel Core.CoreTypes Core.CoreFd Core.CoreModel Core.CoreSpec
   Core.CoreInvBase Core.CoreInvDefs Core.CoreInvFd Core.CoreInvPoll Core.CoreInvReg Core.CoreInvObj
   Core.CoreInvTm Core.CoreInvLoop Core.CoreInvWait
-  Core.CoreRelBase Core.CorePhase2AcctTr Core.CorePhase2AcctFd Core.CorePhase2AcctKt Core.CorePhase2AcctKfd
-  Core.CorePhase2AcctKact Core.CorePhase2AcctKinv Core.CorePhase2AcctKloop Core.CorePhase2AcctKwait.
+  Core.CoreRelBase Core.CorePhase2K1Base Core.CorePhase2K1Fd
+  Core.CorePhase2K1Act Core.CorePhase2K1Inv Core.CorePhase2K1Loop Core.CorePhase2K1Wait.
 Import ListNotations.
 Local Open Scope Z_scope.
 
